@@ -19,7 +19,7 @@
 //                     | perturb step ms me snap | bettergoal evalK attempts rr snap | simplify evalK atLeastOnce | simplifymax)
 //   hybrid <obj> <gaps> <np> (<n> <state>*n)*np
 // every routine op answers one line:
-//   r <ret> out <k> <state>*k cm <m> (<a> <b> <ans>)*m len <before> <after> cost <before> <after> chk <0/1> [vsc <k> <n>*k]
+//   r <ret> out <k> <state>*k cm <m> (<a> <b> <ans>)*m len <before> <after> cost <before> <after> chk <0/1> [vsc <k> <n>*k] [ptc <fired 0/1>]
 // (`cm` = every checkMotion(a,b) call made during the routine with its answer, in call order;
 //  `chk` = PathGeometric::check() of the result, not recorded in `cm`.)
 #include "common/planning.h"
@@ -480,6 +480,8 @@ int main()
                 auto cnt = std::make_shared<vp::EvalCounter>();
                 cnt->fireAt = argN(1);
                 ret = ps.simplify(p, vp::evalCountPtc(cnt), argN(2) != 0);
+                // did the termination condition turn true during the run?
+                extra = std::string(" ptc ") + (cnt->evals > cnt->fireAt ? "1" : "0");
             }
             else if (rnd && rt == "simplifymax")
             {
